@@ -1,6 +1,7 @@
 package rules
 
 import (
+	"fmt"
 	"go/constant"
 	"go/token"
 	"go/types"
@@ -16,23 +17,39 @@ import (
 // for each of the 256 byte values (constants, comparisons, boolean control flow, [256]bool table look-ups and
 // calls of other byte predicates only); the call is then treated like a table look-up indexed by the argument.
 
-var predCache sync.Map // *ssa.Function -> *predInfo
+var predCache sync.Map // predicate key (function + constant arguments) -> *predInfo
 
 type predInfo struct {
 	table *[256]bool
 	param int // index of the byte parameter
 }
 
-func (e *Engine) bytePredicate(fn *ssa.Function) *predInfo {
-	if v, ok := predCache.Load(fn); ok {
+func (e *Engine) bytePredicate(fn *ssa.Function) *predInfo { return e.bytePredicateAt(fn, nil) }
+
+// bytePredicateAt: the predicate fn with the constant arguments of a call bound (is(c, digitClass|hexClass):
+// args[1] is a constant, the byte parameter is the remaining one).
+func (e *Engine) bytePredicateAt(fn *ssa.Function, args []ssa.Value) *predInfo {
+	bound := map[int]constant.Value{}
+	key := fmt.Sprintf("%p", fn)
+	for i, a := range args {
+		if k, ok := a.(*ssa.Const); ok && k.Value != nil && (k.Value.Kind() == constant.Int || k.Value.Kind() == constant.Bool) {
+			bound[i] = k.Value
+			key += fmt.Sprintf("|%d=%s", i, k.Value.ExactString())
+		}
+	}
+	if v, ok := predCache.Load(key); ok {
 		return v.(*predInfo)
 	}
-	info := computeBytePredicate(e, fn, 0)
-	predCache.Store(fn, info)
+	info := computeBytePredicateBound(e, fn, bound, 0)
+	predCache.Store(key, info)
 	return info
 }
 
 func computeBytePredicate(e *Engine, fn *ssa.Function, depth int) *predInfo {
+	return computeBytePredicateBound(e, fn, nil, depth)
+}
+
+func computeBytePredicateBound(e *Engine, fn *ssa.Function, bound map[int]constant.Value, depth int) *predInfo {
 	none := &predInfo{}
 	if fn == nil || len(fn.Blocks) == 0 || depth > 3 || fnPkg(fn) == nil || !core.InModule(fnPkg(fn)) {
 		return none
@@ -46,6 +63,9 @@ func computeBytePredicate(e *Engine, fn *ssa.Function, depth int) *predInfo {
 	}
 	pi := -1
 	for i, p := range fn.Params {
+		if _, isBound := bound[i]; isBound {
+			continue
+		}
 		if b, ok := p.Type().Underlying().(*types.Basic); ok && (b.Kind() == types.Uint8) {
 			if pi >= 0 {
 				return none
@@ -59,19 +79,34 @@ func computeBytePredicate(e *Engine, fn *ssa.Function, depth int) *predInfo {
 		return none
 	}
 	var tab [256]bool
+	args := make([]constant.Value, len(fn.Params))
+	for i, v := range bound {
+		if i < len(args) {
+			args[i] = v
+		}
+	}
 	for c := 0; c < 256; c++ {
-		v, ok := evalPred(e, fn, pi, int64(c), depth)
-		if !ok {
+		args[pi] = constant.MakeInt64(int64(c))
+		v, ok := evalPure(e, fn, args, depth)
+		if !ok || v.Kind() != constant.Bool {
 			return none
 		}
-		tab[c] = v
+		tab[c] = constant.BoolVal(v)
 	}
 	return &predInfo{table: &tab, param: pi}
 }
 
-// evalPred interprets fn with its byte parameter bound to c.
-func evalPred(e *Engine, fn *ssa.Function, pi int, c int64, depth int) (bool, bool) {
-	env := map[ssa.Value]constant.Value{fn.Params[pi]: constant.MakeInt64(c)}
+// evalPure interprets the small pure function fn with its parameters bound to constants (nil: unused).
+func evalPure(e *Engine, fn *ssa.Function, args []constant.Value, depth int) (constant.Value, bool) {
+	if fn == nil || len(fn.Blocks) == 0 || depth > 4 || fnPkg(fn) == nil || !core.InModule(fnPkg(fn)) || len(fn.FreeVars) > 0 {
+		return nil, false
+	}
+	env := map[ssa.Value]constant.Value{}
+	for i, p := range fn.Params {
+		if i < len(args) && args[i] != nil {
+			env[p] = args[i]
+		}
+	}
 	get := func(v ssa.Value) (constant.Value, bool) {
 		if k, ok := v.(*ssa.Const); ok {
 			if k.Value == nil {
@@ -81,6 +116,12 @@ func evalPred(e *Engine, fn *ssa.Function, pi int, c int64, depth int) (bool, bo
 		}
 		x, ok := env[v]
 		return x, ok
+	}
+	wrap := func(r constant.Value, t types.Type) constant.Value {
+		if r.Kind() != constant.Int {
+			return r
+		}
+		return wrapInt(r, t)
 	}
 	blk := fn.Blocks[0]
 	var prev *ssa.BasicBlock
@@ -95,112 +136,120 @@ func evalPred(e *Engine, fn *ssa.Function, pi int, c int64, depth int) (bool, bo
 					}
 				}
 				if idx < 0 {
-					return false, false
+					return nil, false
 				}
 				v, ok := get(x.Edges[idx])
 				if !ok {
-					return false, false
+					return nil, false
 				}
 				env[x] = v
 			case *ssa.BinOp:
 				a, ok1 := get(x.X)
 				b, ok2 := get(x.Y)
 				if !ok1 || !ok2 {
-					return false, false
+					return nil, false
 				}
 				switch x.Op {
 				case token.EQL, token.NEQ, token.LSS, token.LEQ, token.GTR, token.GEQ:
 					if a.Kind() == constant.Bool || b.Kind() == constant.Bool {
-						if x.Op != token.EQL && x.Op != token.NEQ {
-							return false, false
+						if (x.Op != token.EQL && x.Op != token.NEQ) || a.Kind() != b.Kind() {
+							return nil, false
 						}
 						eq := constant.BoolVal(a) == constant.BoolVal(b)
 						env[x] = constant.MakeBool(eq == (x.Op == token.EQL))
 					} else {
 						env[x] = constant.MakeBool(constant.Compare(constant.ToInt(a), x.Op, constant.ToInt(b)))
 					}
-				case token.ADD, token.SUB, token.AND, token.OR, token.XOR:
-					r := constant.BinaryOp(constant.ToInt(a), x.Op, constant.ToInt(b))
-					// wrap to the operand type when it is an unsigned 8-bit value
-					if bt, ok := x.Type().Underlying().(*types.Basic); ok && bt.Kind() == types.Uint8 {
-						r = constant.BinaryOp(r, token.AND, constant.MakeInt64(0xff))
+				case token.ADD, token.SUB, token.AND, token.OR, token.XOR, token.MUL:
+					env[x] = wrap(constant.BinaryOp(constant.ToInt(a), x.Op, constant.ToInt(b)), x.Type())
+				case token.AND_NOT:
+					nb := constant.UnaryOp(token.XOR, constant.ToInt(b), 0)
+					env[x] = wrap(constant.BinaryOp(constant.ToInt(a), token.AND, nb), x.Type())
+				case token.SHL, token.SHR:
+					sh, exact := constant.Uint64Val(constant.ToInt(b))
+					if !exact || sh > 64 {
+						return nil, false
 					}
-					env[x] = r
+					env[x] = wrap(constant.Shift(constant.ToInt(a), x.Op, uint(sh)), x.Type())
 				default:
-					return false, false
+					return nil, false
 				}
 			case *ssa.UnOp:
 				switch x.Op {
 				case token.NOT:
 					a, ok := get(x.X)
 					if !ok || a.Kind() != constant.Bool {
-						return false, false
+						return nil, false
 					}
 					env[x] = constant.MakeBool(!constant.BoolVal(a))
 				case token.MUL:
 					ia, ok := x.X.(*ssa.IndexAddr)
 					if !ok {
-						return false, false
+						return nil, false
 					}
 					g, ok := ia.X.(*ssa.Global)
 					if !ok || e == nil {
-						return false, false
+						return nil, false
 					}
-					t := e.boolTable(g)
 					idx, ok2 := get(ia.Index)
-					if t == nil || !ok2 {
-						return false, false
+					if !ok2 {
+						return nil, false
 					}
 					i, _ := constant.Int64Val(constant.ToInt(idx))
 					if i < 0 || i > 255 {
-						return false, false
+						return nil, false
 					}
-					env[x] = constant.MakeBool(t[i])
+					if t := e.boolTable(g); t != nil {
+						env[x] = constant.MakeBool(t[i])
+					} else if it := e.intTable(g); it != nil {
+						env[x] = constant.MakeInt64(it[i])
+					} else {
+						return nil, false
+					}
 				default:
-					return false, false
+					return nil, false
 				}
 			case *ssa.IndexAddr:
 				// consumed by the load above
 			case *ssa.Convert:
 				a, ok := get(x.X)
 				if !ok || a.Kind() != constant.Int {
-					return false, false
+					return nil, false
 				}
 				if !isAnyInt(x.Type()) {
-					return false, false
+					return nil, false
 				}
-				if bt, ok := x.Type().Underlying().(*types.Basic); ok && bt.Kind() == types.Uint8 {
-					a = constant.BinaryOp(a, token.AND, constant.MakeInt64(0xff))
-				}
-				env[x] = a
+				env[x] = wrap(a, x.Type())
 			case *ssa.ChangeType:
 				a, ok := get(x.X)
 				if !ok {
-					return false, false
+					return nil, false
 				}
 				env[x] = a
 			case *ssa.Call:
 				callee := x.Call.StaticCallee()
 				if callee == nil || x.Call.IsInvoke() {
-					return false, false
+					return nil, false
 				}
-				sub := computeBytePredicate(e, callee, depth+1)
-				if sub.table == nil {
-					return false, false
+				sub := make([]constant.Value, len(x.Call.Args))
+				for i, a := range x.Call.Args {
+					if v, ok := get(a); ok {
+						sub[i] = v
+					} else if i < len(callee.Params) {
+						if refs := callee.Params[i].Referrers(); refs != nil && len(*refs) > 0 {
+							return nil, false
+						}
+					}
 				}
-				a, ok := get(x.Call.Args[sub.param])
+				r, ok := evalPure(e, callee, sub, depth+1)
 				if !ok {
-					return false, false
+					return nil, false
 				}
-				i, _ := constant.Int64Val(constant.ToInt(a))
-				if i < 0 || i > 255 {
-					return false, false
-				}
-				env[x] = constant.MakeBool(sub.table[i])
+				env[x] = r
 			case *ssa.If:
 				cv, ok := get(x.Cond)
 				if !ok || cv.Kind() != constant.Bool {
-					return false, false
+					return nil, false
 				}
 				prev = blk
 				if constant.BoolVal(cv) {
@@ -213,18 +262,18 @@ func evalPred(e *Engine, fn *ssa.Function, pi int, c int64, depth int) (bool, bo
 				blk = blk.Succs[0]
 			case *ssa.Return:
 				if len(x.Results) != 1 {
-					return false, false
+					return nil, false
 				}
 				r, ok := get(x.Results[0])
-				if !ok || r.Kind() != constant.Bool {
-					return false, false
+				if !ok {
+					return nil, false
 				}
-				return constant.BoolVal(r), true
+				return r, true
 			case *ssa.DebugRef:
 			default:
-				return false, false
+				return nil, false
 			}
 		}
 	}
-	return false, false
+	return nil, false
 }
